@@ -144,6 +144,47 @@ def W04(p):
             yield c, ap
 
 
+def _after_cast_group(p, i):
+    """a cast of a parenthesised expression anywhere earlier in the statement of line i (the rules lose track behind it)"""
+    ln = p.lines[i]
+    j = i - 1
+    while j >= 0 and p.lines[j].sid == ln.sid:
+        lx = [x for x in p.lines[j].lex if x.k not in ("sp", "tab")]
+        if any("cast-close" in x.tags and m + 1 < len(lx) and lx[m + 1].t == "(" for m, x in enumerate(lx)):
+            return True
+        j -= 1
+    return False
+
+
+def _cont_class(p, i):
+    ln = p.lines[i]
+    first = p.lines[i - 1].kind != ln.kind
+    if _after_cast_group(p, i):
+        return "after-cast-of-parenthesised-expr"
+    return "%s:%s" % (ln.info.get("K", ln.kind), "first" if first else "later")
+
+
+@op("W09", "TOO_MANY_TAB")
+def W09(p):
+    """a continuation line (cut condition / assignment / call / prototype) indented one tab too deep"""
+    for i, ln in enumerate(p.lines):
+        if ln.kind in ("cont", "pcont") and vwidth(ln.text) <= 76:
+            def ap(q, i=i):
+                q.lines[i].lex.insert(0, Lx("\t", "tab"))
+                return i
+            yield _cont_class(p, i), ap
+
+
+@op("W10", "TOO_FEW_TAB")
+def W10(p):
+    for i, ln in enumerate(p.lines):
+        if ln.kind in ("cont", "pcont") and lead_tabs(ln) >= 1:
+            def ap(q, i=i):
+                del q.lines[i].lex[0]
+                return i
+            yield _cont_class(p, i), ap
+
+
 def _binop_positions(ln, tags=("binop", "asgop"), ambiguous=False):
     """positions of binary/assignment operators written with a space on both sides.  An operator that could also be unary
     (+ - * &) right after a parenthesised lone identifier is left out unless asked for: "(a)-1" cannot be told from a cast
@@ -1537,6 +1578,22 @@ def T09(p):
                         q.lines[i].lex[k].t = "x" + q.lines[i].lex[k].t[2:]
                         return i
                     yield ln.kind, ap
+
+
+@op("T12", "FORBIDDEN_CHAR_NAME", ("h",))
+def T12(p):
+    """an upper-case letter in a typedef name (plain, pointer, array and function-pointer aliases, struct/union/enum typedefs)"""
+    for i, ln in enumerate(p.lines):
+        if ln.kind in ("typedef", "utype_close"):
+            for k, x in enumerate(ln.lex):
+                if "typedef-name" in x.tags and len(x.t) > 2 and x.t[2].islower():
+                    def ap(q, i=i, k=k):
+                        t = q.lines[i].lex[k].t
+                        q.lines[i].lex[k].t = t[:2] + t[2].upper() + t[3:]
+                        return i
+                    form = "close" if ln.kind == "utype_close" else "fptr" if any(y.t == "(" for y in ln.lex) else "array" if any(y.t == "[" for y in ln.lex) else \
+                        "ptr" if any("ptr-decl" in y.tags for y in ln.lex) else "plain"
+                    yield ln.kind + ":" + form, ap
 
 
 @op("T10", "NO_TAB_BF_TYPEDEF", ("h",))
